@@ -617,6 +617,17 @@ func (l *Local) allocWorker(ctx context.Context, cni *daemon.CNI, request *Local
 		default:
 		}
 
+		if l.status == statusDeleting {
+			// the eni is being disposed while this request waited on it: what it still lists
+			// must not be handed to a pod any more
+			select {
+			case <-ctx.Done():
+				close(respCh)
+			case respCh <- &AllocResp{Err: fmt.Errorf("eni is deleting")}:
+			}
+			return
+		}
+
 		var ipv4, ipv6 *IP
 		if l.enableIPv4 {
 			ipv4 = l.ipv4.PeekAvailable(cni.PodID)
